@@ -482,9 +482,24 @@ def post_is_coplanar(ctx, call):
     def check(pos, es):
         want = X.rank([X.vec(e) for e in es]) <= n - 1
         got = bool(res[pos[len(pos) - res.ndim:]]) if res.ndim else bool(res)
+        if got != want and len(es) > n and X.rank([X.vec(e) for e in es[: n - 1]]) < n - 1:
+            # recorded with its mechanism for the known-finding classifier
+            ctx.judge("is_coplanar", False, es, what=f"is_coplanar/collinear/concurrent = {got}, exact rank test says {want} (the first {n - 1} arguments are linearly dependent)",
+                      op="is_coplanar", feat={"first_dependent": True, "nargs": len(es), "n": n}, nontrivial=True)
+            return None, "recorded"
         return got == want, f"is_coplanar/collinear/concurrent = {got}, exact rank test says {want}"
 
     _judge_all(ctx, "is_coplanar", call, list(args), check, "is_coplanar")
+
+
+def f31_first_arguments_dependent(rec, feat):
+    """is_coplanar / is_collinear / is_concurrent with more than dim+1 arguments tests the extra arguments against the subspace spanned by the
+    first dim arguments; when those are linearly dependent (e.g. two coincident points) that subspace degenerates to the zero tensor and
+    every extra argument passes."""
+    return rec["monitor"] == "is_coplanar" and bool(feat.get("first_dependent")) and feat.get("nargs", 0) > feat.get("n", 99)
+
+
+CLASSIFIERS = {"f31_first_arguments_dependent": f31_first_arguments_dependent}
 
 
 def post_angle_bisectors(ctx, call):
@@ -641,6 +656,18 @@ def g_constructions2d(ctx, rng, i):
     _try(g.is_concurrent, g.Line(a), g.Line(b), g.Line(a + b))
     _try(g.is_collinear, g.Point(a), g.Point(b), g.Point(2 * a - 3 * b), g.Point(a + b))
     _try(g.is_collinear, g.Point(a), g.Point(b), g.Point(2 * a - 3 * b), g.Point(gen.nonzero_vec(rng, 3, 4)))
+    # collections with more than dim+1 arguments and mixed batches: every combination of (first three collinear?, fourth on the line?)
+    rows = []
+    for first_ok in (False, True, True, False, True):
+        u, v = gen.nonzero_vec(rng, 3, 4), gen.nonzero_vec(rng, 3, 4)
+        w = 2 * u - v if first_ok else gen.nonzero_vec(rng, 3, 4)
+        x = u + 3 * v if rng.random() < 0.5 else gen.nonzero_vec(rng, 3, 4)
+        rows.append((u, v, w, x))
+    order = rng.permutation(len(rows))
+    cols = [np.stack([rows[k][j] for k in order]) for j in range(4)]
+    _try(g.is_collinear, *[g.PointCollection(c) for c in cols])
+    _try(g.is_concurrent, *[g.LineCollection(c) for c in cols])
+    _try(g.is_collinear, g.PointCollection(cols[0]), g.PointCollection(cols[1]), g.PointCollection(cols[2]), g.Point(rows[0][3]))
 
 
 def g_constructions3d(ctx, rng, i):
@@ -697,6 +724,16 @@ def g_constructions3d(ctx, rng, i):
     _try(g.is_coplanar, A, B, C, g.Point(a + b - c))
     _try(g.is_coplanar, A, B, C, p_off)
     _try(g.is_coplanar, A, B, C, g.Point(a + b - c), g.Point(2 * a - b))
+    rows = []
+    for first_ok in (False, True, True, False):
+        u, v, w = (np.append(gen.coords(rng, (3,), 4, "int"), 1) for _ in range(3))
+        x = u + v - w if first_ok else np.append(gen.coords(rng, (3,), 4, "int"), 1)
+        y = 2 * u - v if rng.random() < 0.5 else np.append(gen.coords(rng, (3,), 4, "int"), 1)
+        rows.append((u, v, w, x, y))
+    order = rng.permutation(len(rows))
+    cols = [np.stack([rows[k][j] for k in order]) for j in range(5)]
+    _try(g.is_coplanar, *[g.PointCollection(cc) for cc in cols])
+    _try(g.is_coplanar, *[g.PointCollection(cc) for cc in cols[:4]])
     # collections with mixed on/off masks
     shape = gen.pick(rng, [(3,), (2, 2), (1, 3)])
     k = int(np.prod(shape))
